@@ -97,6 +97,20 @@ func raOf(u *world.Universe, o Op) (fb.RA, fb.MAC, netip.Addr) {
 	if o.N&32 != 0 {
 		ra.Options = append(ra.Options, fb.NDOption{Type: 14, Data: []byte{1, 2, 3, 4, 5, 6}}) // unknown type (nonce)
 	}
+	switch (o.N + o.P) % 5 {
+	case 1:
+		ra.Options = append(ra.Options, fb.OptDNSSL(1200, "lan"))
+	case 2:
+		ra.Options = append(ra.Options, fb.OptDNSSL(600, "home.arpa", "lan"))
+	case 3:
+		ra.Options = append(ra.Options, fb.OptDNSSL(0xffffffff, "a.example.com", "corp.example.net", "lan"))
+	}
+	switch (o.N + 2*o.P) % 4 {
+	case 1:
+		ra.Options = append(ra.Options, fb.OptRouteInfo(netip.MustParsePrefix("2001:db8:77::/48"), 1, 1800))
+	case 2:
+		ra.Options = append(ra.Options, fb.OptRouteInfo(netip.MustParsePrefix("fd00:abcd:0:1::/64"), 3, 0xffffffff))
+	}
 	return ra, rmac, rip
 }
 
@@ -110,9 +124,16 @@ func routerViewLib(r icmp.Router) string {
 	for _, s := range r.Options.RDNSS.Servers {
 		dns = append(dns, netipOf(s).String())
 	}
-	return fmt.Sprintf("mac=%x ip=%s M=%v O=%v prf=%d hop=%d life=%d reach=%d retrans=%d prefixes=%v mtu=%d rdnss=%d%v slla=%x",
+	route := ""
+	if ri := r.Options.RouteInformation; ri.Prefix != nil {
+		var full [16]byte // the library keeps only the bytes covered by the prefix length
+		copy(full[:], ri.Prefix)
+		route = fmt.Sprintf("%s/%d prf=%d life=%d", netip.AddrFrom16(full), ri.PrefixLength, int(ri.Preference)&3, int64(ri.RouteLifetime/time.Second))
+	}
+	return fmt.Sprintf("mac=%x ip=%s M=%v O=%v prf=%d hop=%d life=%d reach=%d retrans=%d prefixes=%v mtu=%d rdnss=%d%v slla=%x dnssl=%d%q route=%s",
 		[]byte(r.Addr.MAC), r.Addr.IP, r.ManagedFlag, r.OtherCondigFlag, r.Preference, r.CurHopLimit, int64(r.DefaultLifetime/time.Second),
-		r.ReacheableTime, uint32(r.RetransTimer), pfx, uint32(r.Options.MTU), int64(r.Options.RDNSS.Lifetime/time.Second), dns, []byte(r.Options.SourceLLA.MAC))
+		r.ReacheableTime, uint32(r.RetransTimer), pfx, uint32(r.Options.MTU), int64(r.Options.RDNSS.Lifetime/time.Second), dns, []byte(r.Options.SourceLLA.MAC),
+		int64(r.Options.DNSSearchList.Lifetime/time.Second), r.Options.DNSSearchList.DomainNames, route)
 }
 
 func netipOf(ip []byte) netip.Addr {
@@ -136,8 +157,13 @@ func routerViewRef(f *refdec.Frame) string {
 		mac = nd.SourceLLA[:]
 		slla = nd.SourceLLA[:]
 	}
-	return fmt.Sprintf("mac=%x ip=%s M=%v O=%v prf=%d hop=%d life=%d reach=%d retrans=%d prefixes=%v mtu=%d rdnss=%d%v slla=%x",
-		mac, f.IP6.Src, nd.Managed, nd.Other, nd.Prf, nd.CurHopLimit, nd.RouterLifetime, nd.Reachable, nd.Retrans, pfx, nd.MTU, nd.RDNSSLifetime, dns, slla)
+	route := ""
+	if nd.HasRoute {
+		route = fmt.Sprintf("%s/%d prf=%d life=%d", nd.RoutePrefix.Addr(), nd.RoutePrefix.Bits(), nd.RoutePrf, nd.RouteLifetime)
+	}
+	return fmt.Sprintf("mac=%x ip=%s M=%v O=%v prf=%d hop=%d life=%d reach=%d retrans=%d prefixes=%v mtu=%d rdnss=%d%v slla=%x dnssl=%d%q route=%s",
+		mac, f.IP6.Src, nd.Managed, nd.Other, nd.Prf, nd.CurHopLimit, nd.RouterLifetime, nd.Reachable, nd.Retrans, pfx, nd.MTU, nd.RDNSSLifetime, dns, slla,
+		nd.DNSSLLifetime, nd.DNSSL, route)
 }
 
 func runNDSpoof(e *exec) {
